@@ -50,7 +50,11 @@ def check_balanced(spec):
     spc = spec["spc"]
     streams = []
     for r in range(W):
-        if spec.get("call") == "positional":
+        if spec.get("late_spc") and spc is not None:
+            # an epoch-lengthening schedule: the sampler is built with a smaller samples_per_class, the public attribute is raised later
+            s = ClassBalancedSampler(ds, shuffle=spec["shuffle"], samples_per_class=max(1, spc // 2), seed=spec["seed"], rank=r, world_size=W)
+            s.samples_per_class = spc
+        elif spec.get("call") == "positional":
             # documented order: dataset, shuffle, samples_per_class, getall_item, seed, rank, world_size
             s = ClassBalancedSampler(ds, spec["shuffle"], spc, "class", spec["seed"], r, W)
         else:
@@ -102,7 +106,11 @@ def check_semi(spec):
     streams = []
     exhausted = False
     for r in range(W):
-        if spec.get("call") == "positional":
+        if spec.get("late_rank"):
+            # the sampler is built before the process knows its rank; rank and world size are assigned afterwards (public attributes)
+            s = SemiSampler(ds, num_labeled=L, num_unlabeled=U, rank=0, world_size=1, seed=spec["seed"], length_mode=mode)
+            s.rank, s.world_size = r, W
+        elif spec.get("call") == "positional":
             # documented order: dataset, num_labeled, num_unlabeled, rank, world_size, seed, length_mode
             s = SemiSampler(ds, L, U, r, W, spec["seed"], mode)
         else:
@@ -138,7 +146,11 @@ def check_semi(spec):
         same = 0
         for sd in (1, 2):
             a = SemiSampler(ds, num_labeled=L, num_unlabeled=U, rank=0, world_size=W, seed=spec["seed"] + sd, length_mode=mode)
-            b = SemiSampler(ds, num_labeled=L, num_unlabeled=U, rank=1, world_size=W, seed=spec["seed"] + sd, length_mode=mode)
+            if spec.get("late_rank"):
+                b = SemiSampler(ds, num_labeled=L, num_unlabeled=U, rank=0, world_size=1, seed=spec["seed"] + sd, length_mode=mode)
+                b.rank, b.world_size = 1, W
+            else:
+                b = SemiSampler(ds, num_labeled=L, num_unlabeled=U, rank=1, world_size=W, seed=spec["seed"] + sd, length_mode=mode)
             same += list(a) == list(b)
         if same == 2:
             raise Violation("semi:ranks-share-a-stream", "ranks 0 and 1 yield identical streams for three seeds")
@@ -192,10 +204,10 @@ BULK = st.sampled_from(["list", "numpy", "tensor", "numpy:uint8", "numpy:int8", 
 COUNTS = st.one_of(st.lists(st.integers(1, 7), min_size=2, max_size=6), st.lists(st.integers(1, 12), min_size=5, max_size=12))
 BAL = st.fixed_dictionaries({"counts": COUNTS, "key": st.integers(0, 999),
                              "bulk": BULK, "spc": st.one_of(st.none(), st.integers(1, 21)),
-                             "shuffle": st.booleans(), "W": WS, "seed": SEEDS, "epoch": st.integers(0, 50), "call": CALL})
+                             "shuffle": st.booleans(), "W": WS, "seed": SEEDS, "epoch": st.integers(0, 50), "call": CALL, "late_spc": st.booleans()})
 SEMI = st.fixed_dictionaries({"n_labeled": st.integers(1, 12), "n_unlabeled": st.integers(1, 12), "key": st.integers(0, 999),
                               "bulk": st.sampled_from(["list", "numpy", "tensor"]), "L": st.integers(1, 4), "U": st.integers(1, 4), "W": WS,
-                              "mode": st.sampled_from(["labeled", "unlabeled", "all"]), "seed": SEEDS, "call": CALL,
+                              "mode": st.sampled_from(["labeled", "unlabeled", "all"]), "seed": SEEDS, "call": CALL, "late_rank": st.booleans(),
                               "epoch": st.integers(0, 50)})
 WEI = st.fixed_dictionaries({"n": st.integers(1, 40), "key": st.integers(0, 999), "zero_frac": st.sampled_from([0.0, 0.3, 0.6]),
                              "size": st.one_of(st.none(), st.integers(1, 40)), "W": WS, "seed": SEEDS, "call": CALL,
